@@ -270,7 +270,33 @@ type vfC18ConnCase struct {
 	Advertised []string
 	AdvKey     bool // SUPPORTED has a COMPRESSION key at all
 	Proto      int
+	// Auth: "" = the node answers READY to STARTUP; "pw" = AUTHENTICATE, client PasswordAuthenticator;
+	// "chain" = AUTHENTICATE, client with a multi-round authenticator; Rounds = AUTH_CHALLENGE frames the
+	// node sends before AUTH_SUCCESS (0 for "pw": a challenge to PasswordAuthenticator is property C05's crash)
+	Auth   string
+	Rounds int
 }
+
+const vfC18AuthClass = "org.apache.cassandra.auth.PasswordAuthenticator"
+
+// vfC18Chain answers AUTHENTICATE like PasswordAuthenticator and every AUTH_CHALLENGE with a token
+// that depends on the round, so that each AUTH_RESPONSE of the handshake has a body of its own.
+type vfC18Chain struct {
+	inner PasswordAuthenticator
+	round int
+}
+
+func (a vfC18Chain) Challenge(req []byte) ([]byte, Authenticator, error) {
+	if a.round == 0 {
+		resp, _, err := a.inner.Challenge(req)
+		if err != nil {
+			return nil, nil, err
+		}
+		return resp, vfC18Chain{inner: a.inner, round: 1}, nil
+	}
+	return bytes.Repeat([]byte(fmt.Sprintf("round-%d-answer;", a.round)), 4+a.round), vfC18Chain{inner: a.inner, round: a.round + 1}, nil
+}
+func (a vfC18Chain) Success(data []byte) error { return nil }
 
 // vfC18RunSession creates a full session (control connection + one pool connection) and sends one
 // request of every kind; returns, per driver connection, the frames it wrote.
@@ -289,10 +315,41 @@ func vfC18RunSession(c vfC18ConnCase) (conns [][]*vfFrame, errText string) {
 		}
 		return cp.Decode(body)
 	}
+	if c.Auth != "" {
+		var amu sync.Mutex
+		sent := map[int]int{} // challenges sent per node connection
+		n.Handler = func(nc *vfNodeConn, f *vfFrame, q *vfRequest) bool {
+			switch f.Op {
+			case vfOpStartup:
+				nc.Compression = q.Startup["COMPRESSION"]
+				nc.Reply(f, vfOpAuthenticate, (&vfW{}).String(vfC18AuthClass).b)
+				return true
+			case vfOpAuthResponse:
+				amu.Lock()
+				k := sent[nc.ID]
+				sent[nc.ID]++
+				amu.Unlock()
+				if k < c.Rounds {
+					nc.Reply(f, vfOpAuthChallenge, (&vfW{}).Bytes([]byte(fmt.Sprintf("challenge-%d", k))).b)
+				} else {
+					nc.Reply(f, vfOpAuthSuccess, (&vfW{}).Bytes(nil).b)
+				}
+				return true
+			}
+			return false
+		}
+	}
 	d := vfNewDialer(n)
 	cfg := vfClusterConfig(d, c.Proto, n.Desc.Addr)
 	cfg.DefaultTimestamp = false // bodies must not depend on the clock: they are paired with a compression-off run
 	cfg.Compressor = vfC18Compressor(c.Configured)
+	pa := PasswordAuthenticator{Username: "cassandra-user", Password: strings.Repeat("s3cr3t-", 6)}
+	switch c.Auth {
+	case "pw":
+		cfg.Authenticator = pa
+	case "chain":
+		cfg.Authenticator = vfC18Chain{inner: pa}
+	}
 	cfg.ReconnectionPolicy = &ConstantReconnectionPolicy{MaxRetries: 1, Interval: time.Millisecond}
 	s, err := NewSession(*cfg)
 	if err != nil {
@@ -305,12 +362,14 @@ func vfC18RunSession(c vfC18ConnCase) (conns [][]*vfFrame, errText string) {
 			}
 		}
 		note("query", s.Query("INSERT INTO ks.tbl (k) VALUES (1)").Exec())
-		note("bigquery", s.Query(big).Exec())
-		note("bound", s.Query("INSERT INTO ks.tbl (k, v) VALUES (?, ?)", 7, 8).Exec())
-		b := s.NewBatch(LoggedBatch)
-		b.Query("INSERT INTO ks.tbl (k) VALUES (2)")
-		b.Query("INSERT INTO ks.tbl (k) VALUES (?)", 3)
-		note("batch", s.ExecuteBatch(b))
+		if c.Auth == "" { // the authentication rows are about the handshake: one request after it is enough
+			note("bigquery", s.Query(big).Exec())
+			note("bound", s.Query("INSERT INTO ks.tbl (k, v) VALUES (?, ?)", 7, 8).Exec())
+			b := s.NewBatch(LoggedBatch)
+			b.Query("INSERT INTO ks.tbl (k) VALUES (2)")
+			b.Query("INSERT INTO ks.tbl (k) VALUES (?)", 3)
+			note("batch", s.ExecuteBatch(b))
+		}
 		if ok, _ := vfWithin(5*time.Second, s.Close); !ok {
 			note("close", errors.New("hung"))
 		}
@@ -345,60 +404,73 @@ func TestVfC18Conns(t *testing.T) {
 	}
 	nsess, nframes, nopaired := 0, 0, 0
 	problems := []string{}
+	type authVar struct {
+		auth   string
+		rounds int
+	}
+	auths := []authVar{{"", 0}, {"pw", 0}, {"chain", 0}, {"chain", 1}, {"chain", 2}}
+	nauthresp := 0
 	for _, proto := range []int{3, 4} {
-		for ai := 0; ai <= len(advs); ai++ {
-			cc := vfC18ConnCase{Proto: proto, AdvKey: ai < len(advs), Advertised: []string{}}
-			if ai < len(advs) {
-				cc.Advertised = advs[ai]
-			}
-			base, berr := vfC18RunSession(cc) // compression off: the logical bodies
-			nsess++
-			if berr != "" {
-				problems = append(problems, fmt.Sprintf("baseline %+v: %s", cc, berr))
-			}
-			for _, conf := range []string{"", "snappy", "lz4", "vfxor"} {
-				cc.Configured = conf
-				conns, cerr := base, berr
-				if conf != "" {
-					conns, cerr = vfC18RunSession(cc)
-					nsess++
+		for _, av := range auths {
+			for ai := 0; ai <= len(advs); ai++ {
+				cc := vfC18ConnCase{Proto: proto, AdvKey: ai < len(advs), Advertised: []string{}, Auth: av.auth, Rounds: av.rounds}
+				if ai < len(advs) {
+					cc.Advertised = advs[ai]
 				}
-				if cerr != "" {
-					problems = append(problems, fmt.Sprintf("%+v: %s", cc, cerr))
+				base, berr := vfC18RunSession(cc) // compression off: the logical bodies
+				nsess++
+				if berr != "" {
+					problems = append(problems, fmt.Sprintf("baseline %+v: %s", cc, berr))
 				}
-				for ci, frames := range conns {
-					startup, after := "", false
-					paired := ci < len(base) && len(base[ci]) == len(frames)
-					if paired {
-						for fi := range frames {
-							if frames[fi].Op != base[ci][fi].Op {
-								paired = false
+				for _, conf := range []string{"", "snappy", "lz4", "vfxor"} {
+					cc.Configured = conf
+					conns, cerr := base, berr
+					if conf != "" {
+						conns, cerr = vfC18RunSession(cc)
+						nsess++
+					}
+					if cerr != "" {
+						problems = append(problems, fmt.Sprintf("%+v: %s", cc, cerr))
+					}
+					for ci, frames := range conns {
+						startup, after := "", false
+						paired := ci < len(base) && len(base[ci]) == len(frames)
+						if paired {
+							for fi := range frames {
+								if frames[fi].Op != base[ci][fi].Op {
+									paired = false
+								}
 							}
 						}
-					}
-					for fi, f := range frames {
-						if f.Op == vfOpStartup {
-							q := vfParseRequest(f)
-							startup = q.Startup["COMPRESSION"]
-						}
-						m := map[string]interface{}{"k": "wire", "configured": conf, "advertised": cc.Advertised, "advkey": cc.AdvKey,
-							"proto": proto, "conn": ci, "idx": fi, "startup": startup, "after": after, "op": int(f.Op), "flags": int(f.Flags),
-							"wire": vfC18Ints(f.Body), "haslog": paired && f.Op != vfOpStartup, "logical": []int{}, "plainok": true}
-						if f.Op == vfOpStartup {
-							_, ok := vfC18CanonStringMap(f.Body)
-							m["plainok"] = ok
-						} else if f.Op == vfOpOptions {
-							m["plainok"] = len(f.Body) == 0
-						}
-						if paired && f.Op != vfOpStartup {
-							m["logical"] = vfC18Ints(base[ci][fi].Body)
-						} else {
-							nopaired++
-						}
-						out.Emit(m)
-						nframes++
-						if f.Op == vfOpStartup {
-							after = true
+						for fi, f := range frames {
+							if f.Op == vfOpStartup {
+								q := vfParseRequest(f)
+								startup = q.Startup["COMPRESSION"]
+							}
+							m := map[string]interface{}{"k": "wire", "configured": conf, "advertised": cc.Advertised, "advkey": cc.AdvKey,
+								"proto": proto, "conn": ci, "idx": fi, "startup": startup, "after": after, "op": int(f.Op), "flags": int(f.Flags),
+								"wire": vfC18Ints(f.Body), "haslog": paired && f.Op != vfOpStartup, "logical": []int{}, "plainok": true}
+							if f.Op == vfOpStartup {
+								_, ok := vfC18CanonStringMap(f.Body)
+								m["plainok"] = ok
+							} else if f.Op == vfOpOptions {
+								m["plainok"] = len(f.Body) == 0
+							}
+							if paired && f.Op != vfOpStartup {
+								m["logical"] = vfC18Ints(base[ci][fi].Body)
+							} else {
+								nopaired++
+							}
+							m["auth"] = av.auth
+							m["rounds"] = av.rounds
+							if f.Op == vfOpAuthResponse {
+								nauthresp++
+							}
+							out.Emit(m)
+							nframes++
+							if f.Op == vfOpStartup {
+								after = true
+							}
 						}
 					}
 				}
@@ -406,7 +478,7 @@ func TestVfC18Conns(t *testing.T) {
 		}
 	}
 	pj, _ := json.Marshal(problems)
-	fmt.Printf("VFSUMMARY {\"sessions\":%d,\"frames\":%d,\"unpaired\":%d,\"problems\":%s}\n", nsess, nframes, nopaired, pj)
+	fmt.Printf("VFSUMMARY {\"sessions\":%d,\"frames\":%d,\"auth_responses\":%d,\"unpaired\":%d,\"problems\":%s}\n", nsess, nframes, nauthresp, nopaired, pj)
 }
 
 // ---------------------------------------------------------------- C: responses
